@@ -9,6 +9,7 @@ import (
 	"encoding/json"
 	"errors"
 	"fmt"
+	"github.com/influxdata/influxdb/pkg/verifhook"
 	"io"
 	"math"
 	"math/rand"
@@ -780,6 +781,7 @@ func (c *Client) Authenticate(username, password string) (User, error) {
 		return nil, ErrAuthenticate
 	}
 
+	verifhook.At("meta.auth.beforecache", username, 0)
 	// generate a salt and hash of the password for the cache
 	salt, hashed, err := c.saltedHash(password)
 	if err != nil {
